@@ -20,10 +20,10 @@ type OpKind string
 
 const (
 	OpAdd       OpKind = "Add"
-	OpRem       OpKind = "Rem"       // one RemoveHead
-	OpDrain     OpKind = "Drain"     // RemoveHead until ok=false
+	OpRem       OpKind = "Rem"   // one RemoveHead
+	OpDrain     OpKind = "Drain" // RemoveHead until ok=false
 	OpClose     OpKind = "Close"
-	OpWaitProd  OpKind = "WaitProd"  // wait until all producers are done (well-formed closer)
+	OpWaitProd  OpKind = "WaitProd" // wait until all producers are done (well-formed closer)
 	OpSize      OpKind = "GetSize"
 	OpEmpty     OpKind = "IsEmpty"
 	OpArray     OpKind = "AsArray"
@@ -45,10 +45,10 @@ type Script struct {
 }
 
 type Prog struct {
-	Name     string
-	Family   string
-	Capacity int
-	Scripts  []Script
+	Name       string
+	Family     string
+	Capacity   int
+	Scripts    []Script
 	WellFormed bool // producers finish -> close -> consumers drain: must terminate with everything consumed
 }
 
